@@ -123,13 +123,18 @@ def run(check, mirror, tier):
                 want = [("sign", neg), ("digits", coeff, L), ("rep", "0", adj - (L - 1))]
             else:
                 want = [("sign", neg), ("lit", "0."), ("rep", "0", adj - 1), ("digits", coeff, L)]
+            if form == "Eplus" and L == 1:
+                # a zero coefficient: the value is zero whatever the exponent; a run of zeros is not a valid JSON number (and not how 0 is written)
+                zero = [("sign", neg), ("digits", z3.IntVal(0), 1)]
+                return [("plain text = optional minus, the coefficient digits and exactly the zeros the exponent calls for", z3.Implies(v["d1"] != 0, same_atoms(got, want))),
+                        ("zero with a positive exponent prints as 0, not as a run of zeros (a valid JSON number)", z3.Implies(v["d1"] == 0, same_atoms(got, zero)))]
             return [("plain text = optional minus, the coefficient digits and exactly the zeros the exponent calls for", same_atoms(got, want))]
 
         def desc(m, inputs):
             return {k: model_value(m, x) for k, x in inputs.items() if not k.startswith("_")}
         jobs.append(lambda c: decide(c, crate, oid, setup, post, replay_number, rb, models=A.ATOM_MODELS, unwind=6, describe=desc,
                                      budget_s=600, min_paths=1, timeout_ms=20000, known_predicates=KNOWN_PRED, max_cex=3,
-                                     prefer=lambda v: v["d1"] >= 1))   # a non-zero coefficient: the sign of a zero does not change its value
+                                     prefer=(lambda v: v["d1"] >= 1) if not (form == "Eplus" and L == 1) else (lambda v: z3.And(z3.Not(v["neg"]), v["adjusted"] <= 3))))
 
     for L in Ls:
         mk("Eplus", L)
@@ -213,7 +218,8 @@ def replay_number(i, rb):
     getcontext().prec = 12000
     try:
         same_value = Decimal(got) == Decimal(sci)
-        plain = re.match(r"^-?[0-9]+(\.[0-9]+)?$", got) is not None
+        # plain decimal text that is also a JSON number: no superfluous leading zero
+        plain = re.match(r"^-?(0|[1-9][0-9]*)(\.[0-9]+)?$", got) is not None
     except Exception:
         same_value, plain = False, False
     return not (same_value and plain), "FeelNumber::from_str(%s).to_string() = %s (plain decimal text: %s, same value: %s)" % (sci, got[:80], plain, same_value)
